@@ -201,7 +201,8 @@ class Ctx:
             ob.smt2.append((str(r), smt))
         if r == z3.unsat:
             ob.proved += 1
-            self.solver.add(cond)
+            if not has_quantifier(cond):   # proved quantifier-free claims become lemmas; quantified ones would only destabilise later queries
+                self.solver.add(cond)
             return True
         if r == z3.sat:
             ob.failed += 1
@@ -250,6 +251,19 @@ class Ctx:
         for k, v in self.inputs.items():
             out[k] = model_value(model, v)
         return out
+
+
+def has_quantifier(e):
+    seen, todo = set(), [e]
+    while todo:
+        x = todo.pop()
+        if x.get_id() in seen:
+            continue
+        seen.add(x.get_id())
+        if z3.is_quantifier(x):
+            return True
+        todo.extend(x.children())
+    return False
 
 
 def model_value(model, v):
@@ -737,6 +751,17 @@ class SymMap:
         self.size = z3.If(z3.Select(self.dom, kz), self.size, self.size + 1)
         self.dom = z3.Store(self.dom, kz, True)
         self.val = z3.Store(self.val, kz, zint(v))
+
+    def setdefault(self, k, v):
+        if k in self:
+            return self[k]
+        self[k] = v
+        return v
+
+    def get(self, k, default=None):
+        if k in self:
+            return self[k]
+        return default
 
     def plen(self):
         return SymInt(self.size)
